@@ -45,7 +45,8 @@ def info_part(run, obs_w_sample, obs_b_sample):
         step = max(1, len(ob) // n)
         for k, o in enumerate(ob[::step][:n]):
             c = {kk: o[kk] for kk in o if kk != "obs"}
-            c["scale"] = [1, 1000, 1234567][k % 3]
+            # embeddings that give covered-base totals with every kind of thousands group: 5,000 / 5,005 / 5,000,015 / 6,172,835
+            c["scale"] = [1, 1000, 1234567, 1001, 1000003][k % 5]
             c["allq"], c["zq"] = 0, 0
             c["dump"] = os.path.join(d, "%s%d.bin" % (kind, k))
             cases.append(c)
